@@ -8,11 +8,12 @@ TECHNIQUE = ("runtime monitoring: permission state machine as oracle over access
 RULE = ("exhaustive matrix of 8 mutators + 20 readers x 6 access modes x 6 file states (new, one block, several, full "
         "table, unused slots in front of used ones, slack between blocks) + random interleavings (10-30 steps) of allow_write / enter / exit / exit-by-exception / mutators / "
         "readers on one Tdf object, entering and leaving a context (also by exception) is itself checked not to change a byte; with a three-valued permission model (must raise & leave bytes / may change / either); "
+        "every third exit of an interleaving has its closing flush fail (close() injected to close and raise OSError) before the model continues; "
         "non-trivial = every matrix cell and every interleaving of >= 10 steps")
 ASSUMPTIONS = ["files are well-formed TDFs", "contexts are not nested on one object",
                "after a reader opened an implicit context while allow_write() was outstanding, a later context may or may "
                "not be writable (the statement does not decide it); only 'raise => bytes unchanged' is demanded there"]
-REQUIRED = {"quick": ["oracle:C08.mutator-gated", "oracle:C08.entering-a-context-is-not-a-mutation",
+REQUIRED = {"quick": ["c08:context-left-while-close-fails", "oracle:C08.mutator-gated", "oracle:C08.entering-a-context-is-not-a-mutation",
                       "oracle:C08.leaving-a-context-is-not-a-mutation", "oracle:C08.reader-pure", "oracle:C08.no-descriptor-left",
                       "c08:mutator:allowed", "c08:mutator:forbidden", "c08:bytes-changed-inside-write-context",
                       "audit:open:w:enter", "audit:open:r:reader-implicit-context"] +
